@@ -197,6 +197,7 @@ type lcScenario struct {
 	Styles     int    `json:"styles"`    // func kind: bit0 prep any-style, bit1 exec any-style, bit2 post any-style
 	ErrResult  bool   `json:"exec_error_result"` // func kind, result-style exec: success returns NewErrorResult(e), nil
 	InFlow     bool   `json:"in_flow"`
+	NilPtr     bool   `json:"typed_nil_pointer_payload"` // prep and exec return a typed nil pointer
 }
 
 type lcEvent struct {
@@ -340,6 +341,11 @@ func lifecycleScenarios() []lcScenario {
 									sc2.ErrResult = true
 									out = append(out, sc2)
 								}
+								if kind == "func" && n == 1 && !fb {
+									sc3 := sc
+									sc3.NilPtr = true
+									out = append(out, sc3)
+								}
 							}
 						}
 					}
@@ -381,7 +387,11 @@ func lifecycleScenarios() []lcScenario {
 
 func runLifecycle(sc lcScenario, prop string) string {
 	return guard(func() string {
-		r := &lcRec{sc: sc, pv: &struct{ tag string }{"prep-value"}, fbVal: "fallback-value",
+		var pv any = &struct{ tag string }{"prep-value"}
+		if sc.NilPtr {
+			pv = (*vrUser)(nil)
+		}
+		r := &lcRec{sc: sc, pv: pv, fbVal: "fallback-value",
 			prepErr: errors.New("prep-error"), fbErr: errors.New("fallback-error"), postErr: errors.New("post-error"), errRes: errors.New("error-result")}
 		ctx, cancel := context.WithCancel(context.Background())
 		defer cancel()
@@ -793,6 +803,7 @@ func flowScenarios() []flScenario {
 		b.Nested = nested
 		out = append(out, b)
 	}
+	out = append(out, flScenario{Nested: -9, FailAt: -1, CancelAt: -1, Runs: 1})
 	for k := 0; k < 4; k++ {
 		b := base
 		b.FailAt = k
@@ -808,7 +819,36 @@ func flowScenarios() []flScenario {
 	return out
 }
 
+// nilEndedInnerFlow: an inner flow A -x-> B, B -done-> nil is embedded in a parent that routes "done" and "x" differently.
+func nilEndedInnerFlow() string {
+	return guard(func() string {
+		var log []string
+		mk := func(name string, act Action) Node {
+			return NewNode().WithExecFuncAny(func(ctx context.Context, p any) (any, error) { log = append(log, name); return nil, nil }).
+				WithPostFuncAny(func(ctx context.Context, s *SharedStore, p, e any) (Action, error) { return act, nil })
+		}
+		a, b, x, y := mk("a", "x"), mk("b", "done"), mk("X", "end"), mk("Y", "end")
+		inner := NewFlow(a)
+		inner.Connect(a, "x", b)
+		inner.Connect(b, "done", nil)
+		outer := NewFlow(inner)
+		outer.Connect(inner, "x", x)
+		outer.Connect(inner, "done", y)
+		outer.Connect(inner, DefaultAction, x)
+		if err := outer.Run(context.Background(), NewSharedStore()); err != nil {
+			return "C10: " + err.Error()
+		}
+		if got := strings.Join(log, " "); got != "a b Y" {
+			return fmt.Sprintf("C10: nested flow ending through a connection to nil presented the wrong action: visited %q, the flattened machine visits \"a b Y\"", got)
+		}
+		return ""
+	})
+}
+
 func runFlowScenario(sc flScenario, prop string) string {
+	if sc.Nested == -9 {
+		return nilEndedInnerFlow()
+	}
 	return guard(func() string {
 		ctx, cancel := context.WithCancel(context.Background())
 		defer cancel()
@@ -921,6 +961,9 @@ type btScenario struct {
 	CancelIn    int    `json:"cancel_in_item"`
 	PostAction  string `json:"post_action"`
 	ErrResult   int    `json:"error_result_item"` // item whose exec returns an error Result with nil error (-1 none)
+	FbFails     bool   `json:"fallback_fails"`
+	WaitMs      int    `json:"wait_ms"`
+	SlowMs      int    `json:"slow_failing_attempt_ms"`
 }
 
 func batchScenarios() []btScenario {
@@ -946,6 +989,10 @@ func batchScenarios() []btScenario {
 				if n > 1 {
 					out = append(out, btScenario{Items: n, Concurrency: c, Stop: stop, Retries: 3, Fail: []int{1, 2, 0, 9}[:n], Fallback: true, Payload: "results", CancelIn: -1, ErrResult: -1})
 					out = append(out, btScenario{Items: n, Concurrency: c, Stop: stop, Retries: 1, Fail: make([]int, n), Payload: "results", CancelIn: -1, ErrResult: 1})
+					out = append(out, btScenario{Items: n, Concurrency: c, Stop: stop, Retries: 2, Fail: []int{0, 9, 0, 0}[:n], Fallback: true, FbFails: true, Payload: "results", CancelIn: -1, ErrResult: -1})
+					if !stop {
+						out = append(out, btScenario{Items: n, Concurrency: c, Retries: 3, Fail: []int{2, 0, 1, 0}[:n], Payload: "results", CancelIn: -1, ErrResult: -1, WaitMs: 20, SlowMs: 40})
+					}
 				}
 			}
 		}
@@ -965,7 +1012,10 @@ func runBatchScenario(sc btScenario, prop string) string {
 		posts := 0
 		var gotItems, gotResults []Result
 		errRes := errors.New("error-result")
-		b := NewBatchNode().WithMaxRetries(sc.Retries).WithBatchConcurrency(sc.Concurrency).WithBatchErrorHandling(!sc.Stop)
+		b := NewBatchNode().WithMaxRetries(sc.Retries).WithBatchConcurrency(sc.Concurrency).WithBatchErrorHandling(!sc.Stop).WithWait(time.Duration(sc.WaitMs) * time.Millisecond)
+		type span struct{ start, end time.Time }
+		spans := map[int][]span{}
+		fbErr := errors.New("fallback-could-not-recover")
 		var prepItems []Result
 		for i := 0; i < sc.Items; i++ {
 			prepItems = append(prepItems, NewResult(i))
@@ -1006,11 +1056,20 @@ func runBatchScenario(sc btScenario, prop string) string {
 			mu.Lock()
 			attempts[i]++
 			k := attempts[i]
+			spans[i] = append(spans[i], span{start: time.Now()})
 			mu.Unlock()
+			defer func() {
+				mu.Lock()
+				spans[i][k-1].end = time.Now()
+				mu.Unlock()
+			}()
 			if sc.CancelIn == i && k == 1 {
 				cancel()
 			}
 			if i < len(sc.Fail) && k <= sc.Fail[i] {
+				if sc.SlowMs > 0 {
+					time.Sleep(time.Duration(sc.SlowMs) * time.Millisecond)
+				}
 				return Result{}, fmt.Errorf("item-%d-attempt-%d", i, k)
 			}
 			if sc.ErrResult == i {
@@ -1025,6 +1084,9 @@ func runBatchScenario(sc btScenario, prop string) string {
 				mu.Lock()
 				fbCalls[i]++
 				mu.Unlock()
+				if sc.FbFails {
+					return nil, fbErr
+				}
 				return NewResult(-i), nil
 			}
 		}
@@ -1073,6 +1135,10 @@ func runBatchScenario(sc btScenario, prop string) string {
 			itemFails := i < len(sc.Fail) && sc.Fail[i] >= sc.Retries
 			if wants(prop, "C06", "C07") && !cancelled {
 				switch {
+				case itemFails && sc.Fallback && sc.FbFails:
+					if !r.IsError() || r.Error() != fbErr {
+						return fmt.Sprintf("C07: slot %d should hold the fallback's outcome (its error %q), holds value %v err %v", i, fbErr, r.Value(), r.Error())
+					}
 				case itemFails && sc.Fallback:
 					if v, ok := r.AsInt(); !ok || v != -i {
 						return fmt.Sprintf("C07: slot %d should hold the fallback's outcome %d, holds %v (err %v)", i, -i, r.Value(), r.Error())
@@ -1105,6 +1171,15 @@ func runBatchScenario(sc btScenario, prop string) string {
 				}
 			}
 		}
+		if wants(prop, "C20") && sc.WaitMs > 0 && !cancelled {
+			for i, sp := range spans {
+				for k := 1; k < len(sp); k++ {
+					if gap := sp[k].start.Sub(sp[k-1].end); gap < time.Duration(sc.WaitMs)*time.Millisecond {
+						return fmt.Sprintf("C20: item %d: only %v between the end of failed attempt %d and the start of attempt %d (wait %dms)", i, gap, k, k+1, sc.WaitMs)
+					}
+				}
+			}
+		}
 		if wants(prop, "C07") && !sc.Stop && !cancelled {
 			for i := 0; i < sc.Items; i++ {
 				if attempts[i] == 0 {
@@ -1115,7 +1190,7 @@ func runBatchScenario(sc btScenario, prop string) string {
 		if wants(prop, "C09") && sc.Stop && sc.Concurrency <= 1 && !cancelled {
 			first := -1
 			for i := 0; i < sc.Items; i++ {
-				if i < len(sc.Fail) && sc.Fail[i] >= sc.Retries && !sc.Fallback {
+				if i < len(sc.Fail) && sc.Fail[i] >= sc.Retries && (!sc.Fallback || sc.FbFails) {
 					first = i
 					break
 				}
@@ -1287,7 +1362,8 @@ func valueCatalogue() []any {
 	var nm map[string]any
 	var ns []int
 	x := 5
-	return []any{nil, "s", "", true, false, int(-3), int8(-8), int16(16), int32(-32), int64(1 << 40), uint(7), uint8(200), uint16(60000), uint32(1 << 31), uint64(math.MaxUint64),
+	var nas []any
+	return []any{nas, nil, "s", "", true, false, int(-3), int8(-8), int16(16), int32(-32), int64(1 << 40), uint(7), uint8(200), uint16(60000), uint32(1 << 31), uint64(math.MaxUint64),
 		float32(1.5), float64(-2.75), math.NaN(), math.Inf(1), np, &x, nm, map[string]any{"a": 1}, map[string]int{"a": 1}, ns, []int{1, 2}, []any{1, "a"}, []string{"x"}, []float64{1.5},
 		[]map[string]any{{"k": 1}}, [][]int{{1}}, [2]int{1, 2}, func() {}, make(chan int), vrStructWithSlice{[]int{1}}, struct{ A int }{1}, complex(1, 2), errors.New("e"), []error{nil}}
 }
@@ -1381,6 +1457,29 @@ func runValue(i int) string {
 			}
 		}
 		_ = r.AsSliceOr(nil)
+		// Must variants panic exactly when the plain accessor fails
+		must := func(name string, okPlain bool, f func()) string {
+			panicked := func() (p bool) {
+				defer func() {
+					if recover() != nil {
+						p = true
+					}
+				}()
+				f()
+				return false
+			}()
+			if panicked == okPlain {
+				return fmt.Sprintf("C15: %s panicked=%v although the plain accessor ok=%v for %T", name, panicked, okPlain, v)
+			}
+			return ""
+		}
+		for _, m := range []string{
+			must("MustString", wsOK, func() { r.MustString() }), must("MustInt", isNum, func() { r.MustInt() }), must("MustFloat64", isNum, func() { r.MustFloat64() }),
+			must("MustBool", wbOK, func() { r.MustBool() }), must("MustSlice", isSlice, func() { r.MustSlice() }), must("MustMap", wmOK, func() { r.MustMap() })} {
+			if m != "" {
+				return m
+			}
+		}
 		return ""
 	})
 }
@@ -1547,16 +1646,20 @@ func runConfig(seed int) string {
 // ------------------------------------------------------------------ worker pool (C08, C12)
 
 type plScenario struct {
-	Workers int `json:"workers"`
-	Tasks   int `json:"tasks"`
+	Workers int  `json:"workers"`
+	Tasks   int  `json:"tasks"`
+	Gated   bool `json:"submit_next_after_previous_started"`
 }
 
 func poolScenarios() []plScenario {
 	var out []plScenario
 	for _, w := range []int{-1, 0, 1, 2, 4} {
 		for _, n := range []int{0, 1, 5, 40} {
-			out = append(out, plScenario{w, n})
+			out = append(out, plScenario{w, n, false})
 		}
+	}
+	for _, w := range []int{2, 3, 8} {
+		out = append(out, plScenario{w, w, true})
 	}
 	return out
 }
@@ -1573,10 +1676,18 @@ func runPool(sc plScenario) string {
 		gate := make(chan struct{})
 		reached := make(chan struct{}, sc.Tasks)
 		done := make(chan struct{})
+		started := make(chan struct{}, sc.Tasks)
 		go func() {
 			for i := 0; i < sc.Tasks; i++ {
 				i := i
+				if sc.Gated && i > 0 {
+					select {
+					case <-started:
+					case <-time.After(3 * time.Second):
+					}
+				}
 				p.Submit(func() {
+					started <- struct{}{}
 					n := atomic.AddInt32(&inFlight, 1)
 					for {
 						m := atomic.LoadInt32(&maxInFlight)
